@@ -178,6 +178,13 @@ static void body(const vh::Lines &ls) {
 					if(k == 'u') new(slot[g].buf) UL(); else new(slot[g].buf) SL();
 					slot[g].kind = k;
 				}
+			} else if(o == "gnew" || o == "gdefer") {
+				// the free helper functions frg::guard(&m) / frg::guard(frg::dont_lock, &m); the returned unique_lock
+				// initialises the slot directly (prvalue)
+				int g = gi(t[1]); int m = mi(t[2]);
+				if(g < 0 || m < 0 || slot[g].kind) res = "invalid";
+				else if(o == "gnew") { acq_budget = 1; new(slot[g].buf) UL(frg::guard(&mx[m])); slot[g].kind = 'u'; }
+				else { new(slot[g].buf) UL(frg::guard(frg::dont_lock, &mx[m])); slot[g].kind = 'u'; }
 			} else if(o == "api") {
 				res_s = "api " + api_row<UL>('u') + " | " + api_row<SL>('s') + " | " + api_row<QL>('q');
 				res = res_s.c_str();
